@@ -324,7 +324,8 @@ def _build(spec):
         if v == "Identity":
             t = T.IdentityTransform()
         elif v == "PointwiseAffine":
-            t = T.PointwiseAffineTransform(shift=torch.randn(F), scale=torch.rand(F) + 0.5)
+            # constructor *arguments* are part of the configuration: derive them from the spec, not from the RNG
+            t = T.PointwiseAffineTransform(shift=core.seeded(1000 + F, (F,)), scale=core.seeded(2000 + F, (F,), dist="uniform") + 0.5)
         elif v == "AffineTransform":
             t = T.AffineTransform(shift=0.3, scale=-1.5)
         elif v == "RandomPermutation":
@@ -332,7 +333,7 @@ def _build(spec):
         elif v == "ReversePermutation":
             t = T.ReversePermutation(F)
         elif v == "Permutation":
-            t = T.Permutation(torch.randperm(F))
+            t = T.Permutation(torch.tensor([(i * 2 + 1) % F if F % 2 else (F - 1 - i) for i in range(F)]) if F > 1 else torch.tensor([0]))
         elif v == "Squeeze":
             t, shape = T.SqueezeTransform(), (F, 2, 2)
             return Entry(t, "transform", shape, ishape=(4 * F, 1, 1))
